@@ -1,4 +1,4 @@
-From Coq Require Import List ZArith Bool String.
+From Coq Require Import List ZArith Bool String Ascii.
 From Echo Require Import Base.Sx Bind.ParseNum Bind.ValueBinder.
 Import ListNotations.
 Open Scope Z_scope.
@@ -7,6 +7,21 @@ Open Scope Z_scope.
           (2 value)                                                                      ParseBool
    output: (((0 z) | (1 (z ...)) | (2)) ... has_error) | (err z) | (ok b) *)
 Definition to_string (s : str) : string := string_of_list_ascii s.
+(* the oracle travels with the case: ((family bits text ok value) ...) - what strconv.ParseFloat / ParseBool /
+   time.ParseDuration answered for the texts of this case *)
+Fixpoint str_eq (a b : str) : bool :=
+  match a, b with
+  | [], [] => true
+  | x :: a', y :: b' => Ascii.eqb x y && str_eq a' b'
+  | _, _ => false
+  end.
+Fixpoint lookup_orc (tbl : list sx) (f b : Z) (s : str) : option Z :=
+  match tbl with
+  | [] => None
+  | e :: r => if (as_Z (nth_sx 0 e) =? f) && (as_Z (nth_sx 1 e) =? b) && str_eq (as_str (nth_sx 2 e)) s
+              then (if as_bool (nth_sx 3 e) then Some (as_Z (nth_sx 4 e)) else None)
+              else lookup_orc r f b s
+  end.
 Definition dec_call (x : sx) : call :=
   match as_Z (nth_sx 0 x) with
   | 0 => CScalar (to_string (as_str (nth_sx 1 x))) (as_str (nth_sx 2 x)) (as_Z (nth_sx 3 x))
@@ -16,9 +31,9 @@ Definition enc_dest (d : dest_val) : sx :=
   match d with DScalar z => SL [SZ 0; SZ z] | DSlice l => SL [SZ 1; SL (map SZ l)] | DUnknownMethod => SL [SZ 2] end.
 Definition run_sx (x : sx) : sx :=
   match as_Z (nth_sx 0 x) with
-  | 0 => let '(ds, err) := chain (as_bool (nth_sx 1 x)) false (map dec_call (as_list (nth_sx 2 x))) in
+  | 0 => let '(ds, err) := chain (lookup_orc (as_list (nth_sx 3 x))) (as_bool (nth_sx 1 x)) false (map dec_call (as_list (nth_sx 2 x))) in
          SL [SL (map enc_dest ds); of_bool err]
-  | 1 => match bind_kind (to_string (as_str (nth_sx 1 x))) (as_str (nth_sx 2 x)) (as_Z (nth_sx 3 x)) with
+  | 1 => match bind_kind (lookup_orc (as_list (nth_sx 4 x))) (to_string (as_str (nth_sx 1 x))) (as_str (nth_sx 2 x)) (as_Z (nth_sx 3 x)) with
          | Some (z, err) => SL [of_bool err; SZ z]
          | None => SL [SZ (-1); SZ 0]
          end
